@@ -392,9 +392,30 @@ func tally(st []acct) []mismatch {
 			if c.votes.Sign() != 0 {
 				out = append(out, mismatch{"unregistered-nonzero", role(c.addr), c.votes, new(big.Int), "unregistered candidate keeps votes"})
 			}
-		default:
+		case "":
 			if c.votes.Sign() != 0 {
 				out = append(out, mismatch{"non-candidate-nonzero", role(c.addr), c.votes, new(big.Int), "account that never registered has votes"})
+			}
+		default:
+			// isCandidate holds something that is neither "true" nor "false" (phase R's letters rC3maybe /
+			// pC1maybe; the code stores whatever a register transaction says). The statement does not say
+			// whether such an account is registered: either reading is accepted, a violation is a count that
+			// is neither 0 nor what the equation gives
+			if c.votes.Sign() != 0 {
+				dep := new(big.Int)
+				dep.SetString(c.deposit, 10)
+				want := new(big.Int).Div(dep, params.DepositExchangeRate)
+				parts := []string{fmt.Sprintf("isCandidate=%q; deposit %s mo -> %s", c.isCand, dep, want)}
+				for _, a := range st {
+					if a.voteFor == c.addr {
+						wv := weight(a.bal)
+						want.Add(want, wv)
+						parts = append(parts, fmt.Sprintf("%s bal %s mo -> %s", role(a.addr), a.bal, wv))
+					}
+				}
+				if want.Cmp(c.votes) != 0 {
+					out = append(out, mismatch{"undefined-candidate-state-tally", role(c.addr), c.votes, want, "neither 0 nor the equation: " + strings.Join(parts, "; ")})
+				}
 			}
 		}
 	}
@@ -902,7 +923,7 @@ func main() {
 	// stay inside the tier's wall-clock allowance on a shared machine; a cut run is reported as not exhaustive
 	bfsBudget, termBudget := 4*time.Minute, 3*time.Minute
 	if core.Thorough() {
-		bfsBudget, termBudget = 22*time.Minute, 12*time.Minute
+		bfsBudget, termBudget = 30*time.Minute, 15*time.Minute
 	}
 	core.Opt.Budget = bfsBudget
 	core.BFS(r, core.BFSConfig{Prop: prop, Run: safe, MaxDepth: maxBlocks + 1, Subprocess: true, RecycleEvery: 1500, PerRunLimit: 120e9,
